@@ -103,7 +103,7 @@ def wielandt(n, variant=0):
     return Cm
 
 
-def gen(rng, tier):
+def _gen(rng, tier):
     for n in range(2, 9 if tier == 'thorough' else 8):
         for v in (0, 1):
             yield {'k': 'mat', 'M': [[str(x) for x in r] for r in _norm(wielandt(n, v))], 'style': 'wielandt%d' % v}
@@ -136,6 +136,22 @@ def gen(rng, tier):
         yield 'EXHAUSTIVE'
 
 
+def gen(rng, tier):
+    # a share of the cases re-uses ONE ndarray object that held the previous matrix of the same size
+    # (filled in place): results must depend on the contents only, never on object identity
+    last = {}
+    for case in _gen(rng, tier):
+        if case == 'EXHAUSTIVE' or case['k'] != 'mat':
+            yield case
+            continue
+        n = len(case['M'])
+        if n in last and rng.random() < 0.3 and not case['style'].startswith('enum'):
+            case = dict(case)
+            case['prev'] = last[n]
+        last[n] = case['M']
+        yield case
+
+
 def corpus():
     out = []
     for Cm in ([[0, 1], [1, 1]], [[0, 1, 0], [0, 0, 1], [1, 1, 0]],
@@ -158,6 +174,15 @@ def impl(case):
     import numpy as np
     from msmhelper.utils import tests as T
     M = np.array([[float(Fraction(x)) for x in r] for r in case['M']], dtype=np.float64)
+    if case.get('prev'):
+        new = M
+        M = np.array([[float(Fraction(x)) for x in r] for r in case['prev']], dtype=np.float64)
+        for f in (T.is_transition_matrix, T.is_ergodic, T.is_fuzzy_ergodic, T.ergodic_mask):
+            try:
+                f(M)
+            except Exception:  # noqa
+                pass
+        M[:] = new      # same object, new contents
     out = {}
     for name, f in (('tmat', T.is_transition_matrix), ('erg', T.is_ergodic), ('fuzzy', T.is_fuzzy_ergodic)):
         try:
@@ -252,4 +277,5 @@ def nontrivial(case, ibc):
 def describe(case, ibc):
     r = next(iter(ibc.values()))
     return ['n:%d' % len(case['M']), 'style:' + case['style'].split('-')[0],
-            'impl-ergodic:%s' % r.get('erg'), 'impl-fuzzy:%s' % r.get('fuzzy')]
+            'impl-ergodic:%s' % r.get('erg'), 'impl-fuzzy:%s' % r.get('fuzzy'),
+            'reused-buffer:%s' % bool(case.get('prev'))]
